@@ -10,6 +10,8 @@ import PygProofs.Lemmas.ResDec
 import PygProofs.Lemmas.WrapLemmas
 import PygProofs.Lemmas.CacheLemmas
 import PygProofs.Lemmas.CacheKeyLemmas
+import PygModel.WrapHist
+import PygProofs.Lemmas.WrapHistLemmas
 
 namespace Pyg.Props.C18
 open Pyg
@@ -562,6 +564,129 @@ example :
       [.ok (.tuple c1.args), .ok (.tuple c2.args), .ok (.tuple c1.args)] := by
   refine ⟨⟨by decide, by decide, by decide⟩, ⟨by decide, by decide, by decide⟩, ⟨by decide, by decide, by decide⟩,
     by decide +kernel, by decide +kernel⟩
+
+/-! ## call histories through a stack that contains `cache`
+
+`runH s body unh chain {} calls` (PygModel/WrapHist.lean) runs a history of calls on one decorated function whose
+stack `chain = above ++ (cache, p) :: below` holds one cache layer — the only shape the constructor builds
+(`mk_keeps_distinct`): the state is the dict of that layer plus the log `.evals` of every execution of the plain
+function.  `reach s above c` is the call as the cache layer receives it; on valid calls it is `c` itself unless
+`loops` sits above the cache, which passes a first argument given by keyword positionally (`stack_cache_seen`).
+`ValidCall s body c v` (WrapHistLemmas): python binds `c`, `f` returns `v`, only declared keywords, none called
+`axis` (K4), no int ndarray (K6) — the hypotheses of `stack_transparent`. -/
+
+/-- the hypotheses on one call of a history: a valid call of a non-raising `f`, hashable (K5), with python dicts
+as arguments -/
+def HistCall (s : Sig) (body : PDict → Res Val) (unh : Call → Bool) (above : List (Cls × PDict)) (c : Call) : Prop :=
+  (∃ v, ValidCall s body c v) ∧ unh (reach s above c) = false ∧ Call.ok (reach s above c)
+
+/-- **A stack with a cache layer, over any call history**: for every stack `above ++ cache :: below` (any layers of
+the other five classes above and below the cache), every history `pre` of valid calls of a non-raising `f` and every
+next call `c`:
+* if no earlier call is the same combination, the plain function is executed exactly once more and the reply is
+  what `f` returns on `c`;
+* otherwise the plain function is not executed and the reply is what `f` returned on the FIRST earlier call that
+  is the same combination.
+"The same combination" is `sameComb` (python `==` of what was passed) on the calls as the cache layer receives them.
+Proof: the stack refines the plain cache (`runH_refines`, which uses transparency of the layers above and below:
+`evalH_through`, `evalH_below`), then `cache_once_per_combination`. -/
+theorem stack_cache_history (s : Sig) (body : PDict → Res Val) (unh : Call → Bool) (p : PDict)
+    (above below : List (Cls × PDict)) (ha : noCache above) (hb : noCache below)
+    (pre : List Call) (c : Call) (hpre : ∀ x ∈ pre, HistCall s body unh above x) (hc : HistCall s body unh above c) :
+    let chain := above ++ (Cls.cache, p) :: below
+    let seen := reach s above
+    let r := runH s body unh chain {} pre
+    let r' := runH s body unh chain {} (pre ++ [c])
+    r'.2 = r.2 ++ [r'.2.getLast?.getD (applyFn s body c)] ∧
+    ((∀ x ∈ pre, ¬ sameComb (seen x) (seen c)) →
+      r'.1.evals.length = r.1.evals.length + 1 ∧ r'.2.getLast? = some (applyFn s body c)) ∧
+    ((∃ x ∈ pre, sameComb (seen x) (seen c)) →
+      r'.1.evals.length = r.1.evals.length ∧
+      ∃ pre1 c0 pre2, pre = pre1 ++ c0 :: pre2 ∧ sameComb (seen c0) (seen c) ∧
+        (∀ x ∈ pre1, ¬ sameComb (seen x) (seen c)) ∧ r'.2.getLast? = some (applyFn s body c0)) := by
+  intro chain seen r r'
+  have hv : ∀ x ∈ pre, (∃ v, ValidCall s body x v) ∧ unh (reach s above x) = false :=
+    fun x hx => ⟨(hpre x hx).1, (hpre x hx).2.1⟩
+  have hv' : ∀ x ∈ pre ++ [c], (∃ v, ValidCall s body x v) ∧ unh (reach s above x) = false := by
+    intro x hx
+    rcases List.mem_append.1 hx with hx | hx
+    · exact hv x hx
+    · simp only [List.mem_singleton] at hx; subst hx; exact ⟨hc.1, hc.2.1⟩
+  obtain ⟨_, hr2, hr3⟩ := runH_refines s body unh p above below ha hb pre {} {} rfl hv
+  obtain ⟨_, hr2', hr3'⟩ := runH_refines s body unh p above below ha hb (pre ++ [c]) {} {} rfl hv'
+  rw [List.map_append, List.map_cons, List.map_nil] at hr2' hr3'
+  simp only [List.length_nil, Nat.add_zero, Nat.zero_add] at hr3 hr3'
+  -- what `f` returns on a valid call is the value the plain cache stores for the call the cache layer sees
+  have hres : ∀ x, (∃ v, ValidCall s body x v) → Except.ok (resultOf s body (seen x)) = applyFn s body x := by
+    rintro x ⟨v, h⟩
+    rw [(ValidCall.reach above h).resultOf_eq, h.ok]
+  obtain ⟨h1, h2, h3⟩ := cache_once_per_combination (resultOf s body) (pre.map seen) (seen c)
+    (by intro y hy; obtain ⟨x, hx, rfl⟩ := List.mem_map.1 hy; exact (hpre x hx).2.2) hc.2.2
+  have e2 : r.2 = (runCache (fun c => Except.ok (resultOf s body c)) {} (List.map seen pre)).2 := hr2
+  have e2' : r'.2 = (runCache (fun c => Except.ok (resultOf s body c)) {} (List.map seen pre ++ [seen c])).2 := hr2'
+  have e3 : r.1.evals.length =
+      (runCache (fun c => Except.ok (resultOf s body c)) {} (List.map seen pre)).1.evals.length := hr3
+  have e3' : r'.1.evals.length =
+      (runCache (fun c => Except.ok (resultOf s body c)) {} (List.map seen pre ++ [seen c])).1.evals.length := hr3'
+  refine ⟨?_, fun hno => ?_, fun hex => ?_⟩
+  · rw [e2', e2, ← hres c hc.1]; exact h1
+  · have := h2 (by
+      intro y hy; obtain ⟨x, hx, rfl⟩ := List.mem_map.1 hy; exact hno x hx)
+    rw [e3', e3, e2', ← hres c hc.1]; exact this
+  · obtain ⟨x, hx, hs⟩ := hex
+    obtain ⟨hl, p1, c0', p2, hsplit, hs0, hbefore, hlast⟩ := h3 ⟨seen x, List.mem_map.2 ⟨x, hx, rfl⟩, hs⟩
+    obtain ⟨l1, l2, hpre12, hm1, hm2⟩ := List.map_eq_append_iff.1 hsplit
+    obtain ⟨c0, l2', hl2, hc0, hm2'⟩ := List.map_eq_cons_iff.1 hm2
+    subst hl2 hc0 hm1
+    refine ⟨by rw [e3', e3]; exact hl, l1, c0, l2', hpre12, hs0,
+      fun y hy => hbefore (seen y) (List.mem_map.2 ⟨y, hy, rfl⟩), ?_⟩
+    rw [e2', ← hres c0 ((hpre c0 (by rw [hpre12]; simp)).1)]; exact hlast
+
+/-- the whole history at once: the replies are `f` of the first call of the history that the cache layer sees under
+the same key, and the plain function is executed as many times as there are distinct keys -/
+theorem stack_cache_history_all (s : Sig) (body : PDict → Res Val) (unh : Call → Bool) (p : PDict)
+    (above below : List (Cls × PDict)) (ha : noCache above) (hb : noCache below)
+    (calls : List Call) (hcalls : ∀ x ∈ calls, (∃ v, ValidCall s body x v) ∧ unh (reach s above x) = false) :
+    let seen := reach s above
+    let r := runH s body unh (above ++ (Cls.cache, p) :: below) {} calls
+    (∀ (i : Nat) (c : Call), calls[i]? = some c →
+      ∃ pre1 c0 pre2, calls = pre1 ++ c0 :: pre2 ∧ callKey (seen c0) = callKey (seen c) ∧
+        (∀ x ∈ pre1, callKey (seen x) ≠ callKey (seen c)) ∧ r.2[i]? = some (applyFn s body c0)) ∧
+    ∃ keys : List Val, keys.Nodup ∧ (∀ k, k ∈ keys ↔ k ∈ calls.map fun c => callKey (seen c)) ∧
+      r.1.evals.length = keys.length := by
+  intro seen r
+  obtain ⟨_, hr2, hr3⟩ := runH_refines s body unh p above below ha hb calls {} {} rfl hcalls
+  simp only [List.length_nil, Nat.add_zero, Nat.zero_add] at hr3
+  obtain ⟨hnd, hkeys, hrep⟩ := cache_once (resultOf s body) (calls.map seen)
+  refine ⟨fun i c hi => ?_, ⟨_, hnd, fun k => by rw [hkeys k, List.map_map]; rfl, hr3⟩⟩
+  have e2 : r.2 = (runCache (fun c => Except.ok (resultOf s body c)) {} (List.map seen calls)).2 := hr2
+  -- the first call of the mapped history with the key of `seen c`
+  have hmem : c ∈ calls := List.mem_of_getElem? hi
+  cases hf : firstWith (calls.map seen) (callKey (seen c)) with
+  | none =>
+    rw [firstWith_none_iff] at hf
+    exact absurd (List.mem_map.2 ⟨seen c, List.mem_map.2 ⟨c, hmem, rfl⟩, rfl⟩) hf
+  | some c0' =>
+    simp only [firstWith] at hf
+    obtain ⟨hk0, p1, p2, hsplit, hbefore⟩ := List.find?_eq_some_iff_append.1 hf
+    obtain ⟨l1, l2, hc12, hm1, hm2⟩ := List.map_eq_append_iff.1 hsplit
+    obtain ⟨c0, l2', hl2, hc0, _⟩ := List.map_eq_cons_iff.1 hm2
+    subst hl2 hc0 hm1
+    have hc0mem : c0 ∈ calls := by rw [hc12]; simp
+    have hk0' : callKey (seen c0) = callKey (seen c) := by simpa using hk0
+    have hnot1 : ∀ y ∈ l1, callKey (seen y) ≠ callKey (seen c) := by
+      intro y hy
+      have := hbefore (seen y) (List.mem_map.2 ⟨y, hy, rfl⟩)
+      simpa using this
+    refine ⟨l1, c0, l2', hc12, hk0', hnot1, ?_⟩
+    rw [e2, hrep]
+    simp only [List.map_map, List.getElem?_map, hi, Option.map_some, Function.comp]
+    have : firstWith (List.map seen calls) (callKey (seen c)) = some (seen c0) := by
+      simp only [firstWith]; exact hf
+    rw [this]
+    obtain ⟨v, hv⟩ := (hcalls c0 hc0mem).1
+    simp only [Option.getD_some]
+    rw [(ValidCall.reach above hv).resultOf_eq, hv.ok]
 
 /-! ### unhashable arguments (finding K5)
 
